@@ -16,6 +16,14 @@ Engines (all E1: complete enumeration of the stated alphabets/bounds, no samplin
   subst       every single-word substitution through Share.parse; complete pair/triple position grid
   syndrome    every 2- and 3-word corruption decided on the single-error syndrome table of the real
               rs1024_polymod (affinity of the function is itself checked)
+  member      reference-built shares with member thresholds (one group, two levels) through recover_mnemonic
+  draws       shape of the randomness consumed (widths, count, every draw matters) through the randbits seam
+  direct      split_secret / recover_secret called directly: reference SplitSecret, subsets, tampered points
+  repeat      lists with repeated shares
+  defaults    default passphrase / exponent arguments
+  tokens      tokens outside the 1024-word list in Share.parse and the word lookup
+  order       unsorted lists, middle subset sizes for large n
+  foreign     a foreign share inside an otherwise valid set (replaced, three splits, re-encoded member index)
 """
 import itertools
 
@@ -136,9 +144,17 @@ def make_split(c, k, n, seed, label="rs"):
     """Run the real generate_shares under an enumerated randbits. Returns (mnemonic, secret, passphrase, shares|Rejected)."""
     from buidl.shamir import ShareSet
 
-    secret = secret_of(c["bits"], c["sv"], seed)
-    mn = ref.bip39_encode(secret)
     pp = pass_of(c["pp"], seed)
+    if c["sv"].startswith("ems:"):
+        # the secret is chosen through its ENCRYPTED form (the payload that is split): leading / trailing / all zero bytes
+        nb = c["bits"] // 8
+        body = filler(seed, "ems-edge", c["bits"], nb)
+        ems = {"lead0": b"\x00\x00" + body[2:], "trail0": body[:-2] + b"\x00\x00", "zero": bytes(nb)}[c["sv"][4:]]
+        ident = ident_of(c["id"], seed)
+        secret = ref.decrypt(ems, pp, c["e"], 0x7FFF if ident < 0 else ident)
+    else:
+        secret = secret_of(c["bits"], c["sv"], seed)
+    mn = ref.bip39_encode(secret)
     with patched_randbits(Stream(ident_of(c["id"], seed), c["rs"], seed, label)):
         shares = attempt(ShareSet.generate_shares, mn, k, n, passphrase=pp, exponent=c["e"])
     return mn, secret, pp, shares
@@ -384,6 +400,12 @@ def gen_threshold(tier, seed):
     for c in devs:
         for k, n in KN:
             if n <= small:
+                cases.append({"cfg": c, "k": k, "n": n, "mode": "all", "seed": seed})
+    # payload edge values (the split payload has leading / trailing / only zero bytes) and passphrase x exponent interaction
+    edge = [cfg(sv="ems:lead0"), cfg(sv="ems:trail0"), cfg(sv="ems:zero"), cfg(bits=256, sv="ems:lead0"), cfg(bits=256, sv="ems:trail0", pp="trezor"), cfg(pp="bin", e=2), cfg(pp="long", e=1)]
+    for c in edge:
+        for k, n in KN:
+            if n <= (4 if tier == "quick" else 6):
                 cases.append({"cfg": c, "k": k, "n": n, "mode": "all", "seed": seed})
     two = [cfg(), cfg(**CFG_256)]
     if tier == "quick":
@@ -1115,6 +1137,778 @@ def run_syndrome(case):
     return res
 
 
+# ================================================================ engines added after the coverage audit
+# (member / two-level recovery, draw shape, repeated shares, default arguments, non-list tokens, direct
+#  split_secret / recover_secret, list order and mid sizes, foreign shares)
+def real_ident(name, seed):
+    i = ident_of(name, seed)
+    return 0x7FFF if i < 0 else i
+
+
+def rnd_source(seed, label):
+    """callable n -> n filler bytes (a fresh block per call) for the reference's split_points"""
+    ctr = [0]
+
+    def rnd(n):
+        ctr[0] += 1
+        return filler(seed, label, ctr[0], n)
+
+    return rnd
+
+
+class RecStream(Stream):
+    """Stream that records the width of every draw and the value of every byte draw; `flip` = {number of the
+    byte draw: xor mask} perturbs chosen draws."""
+
+    def __init__(self, ident, kind, seed, label="rs", flip=None):
+        Stream.__init__(self, ident, kind, seed, label)
+        self.log = []
+        self.drawn = []
+        self.flip = flip or {}
+
+    def __call__(self, nbits):
+        self.log.append(nbits)
+        v = Stream.__call__(self, nbits)
+        if nbits <= 8:
+            v ^= self.flip.get(len(self.drawn), 0) & ((1 << nbits) - 1)
+            self.drawn.append(v)
+        return v
+
+
+# ---------------------------------------------------------------- member (member-threshold / two-level shares)
+MEMBER_CFG = {
+    "A": {"bits": 128, "sv": "f0", "pp": "trezor", "e": 0, "id": "fill"},
+    "B": {"bits": 256, "sv": "f1", "pp": "empty", "e": 0, "id": "fill2"},
+    "C": {"bits": 128, "sv": "zero", "pp": "bin", "e": 2, "id": "0"},
+}
+TWO_SPECS = [[1, 1], [2, 2], [2, 3], [3, 3]]
+
+
+def build_levels(c, gt, gc, spec, seed, label, secret=None):
+    """Shares of a gt-of-gc group split whose group i is an (mt, mc) = spec[i] member split, produced by the
+    REFERENCE splitter and encoder.  Returns (secret, passphrase, ident, texts, meta) with meta[i] = (gi, mi, mt)."""
+    if secret is None:
+        secret = secret_of(c["bits"], c["sv"], seed)
+    pp = pass_of(c["pp"], seed)
+    ident = real_ident(c["id"], seed)
+    ems = ref.encrypt(secret, pp, c["e"], ident)
+    rnd = rnd_source(seed, label)
+    texts, meta = [], []
+    for (gi, gv), (mt, mc) in zip(ref.split_points(gt, gc, ems, rnd), spec):
+        for mi, mv in ref.split_points(mt, mc, gv, rnd):
+            texts.append(ref.encode_share({"bits": c["bits"], "id": ident, "exp": c["e"], "gi": gi, "gt": gt, "gc": gc, "mi": mi, "mt": mt, "value": mv}))
+            meta.append((gi, mi, mt))
+    return secret, pp, ident, texts, meta
+
+
+def level_class(meta, gt):
+    """(sufficient, clean, exact): some gt groups reach their member threshold / moreover no present group is
+    below its threshold / moreover exactly gt groups with exactly mt members each (the spec's rule)"""
+    groups = {}
+    for gi, mi, mt in meta:
+        groups.setdefault(gi, [mt, set()])[1].add(mi)
+    complete = [g for g, (mt, ms) in groups.items() if len(ms) >= mt]
+    sufficient = len(complete) >= gt
+    clean = sufficient and len(complete) == len(groups)
+    exact = clean and len(groups) == gt and all(len(ms) == mt for mt, ms in groups.values())
+    return sufficient, clean, exact
+
+
+def gen_member(tier, seed):
+    cases = []
+    quick = tier == "quick"
+    full_n = 5 if quick else 8
+    for name in ("A", "B") if quick else ("A", "B", "C"):
+        for mt, mc in KN:  # one group (1-of-1), member threshold mt of mc: the usual encoding of a plain k-of-n
+            if mc <= (full_n if name == "A" else 4):
+                cases.append({"kind": "levels", "cfg": name, "gt": 1, "gc": 1, "spec": [[mt, mc]], "mode": "all", "seed": seed})
+            elif name == "A" or not quick or (mt, mc) in ((16, 16), (9, 16), (2, 16)):
+                cases.append({"kind": "levels", "cfg": name, "gt": 1, "gc": 1, "spec": [[mt, mc]], "mode": "windows", "plus": not quick, "seed": seed})
+    specs3 = TWO_SPECS[:3] if quick else TWO_SPECS
+    cap = 7 if quick else 9
+    for gc in (1, 2, 3):
+        for gt in range(1, gc + 1):
+            for spec in itertools.product(TWO_SPECS if gc < 3 else specs3, repeat=gc):
+                if gc == 1 or sum(mc for _, mc in spec) > cap:
+                    continue
+                cases.append({"kind": "levels", "cfg": "A", "gt": gt, "gc": gc, "spec": [list(s) for s in spec], "mode": "all", "seed": seed})
+    for mt, mc in KN:
+        if mc <= (3 if quick else 4):
+            for v in ("rand", "secret", "mt"):
+                if v == "mt" and mc == 1:
+                    continue
+                cases.append({"kind": "mix", "cfg": "A", "mt": mt, "mc": mc, "v": v, "seed": seed})
+    return cases
+
+
+def run_member(case):
+    from buidl.shamir import ShareSet
+
+    res = Res()
+    seed = case["seed"]
+    c = MEMBER_CFG[case["cfg"]]
+    vc = {"engine": "member", "case": case}
+    memo = {}
+
+    def ref_value(texts, pp, exact=False):
+        """reference outcome: mnemonic or None (decryption memoised per recovered payload)"""
+        decs = [ref.decode_share(t) for t in texts]
+        try:
+            ems = ref.recover_ems(decs, exact)
+        except ref.Invalid as e:
+            return None, str(e)
+        key = (ems, decs[0]["exp"], decs[0]["id"])
+        if key not in memo:
+            memo[key] = ref.bip39_encode(ref.decrypt(ems, pp, decs[0]["exp"], decs[0]["id"]))
+        return memo[key], "accepted"
+
+    if case["kind"] == "mix":
+        mt, mc = case["mt"], case["mc"]
+        secA, pp, ident, A, _ = build_levels(c, 1, 1, [[mt, mc]], seed, "memA")
+        secB = secA if case["v"] == "rand" else secret_of(c["bits"], "f7", seed)
+        mtB = mt if case["v"] != "mt" else (mt + 1 if mt < mc else mt - 1)
+        _, _, _, B, _ = build_levels(c, 1, 1, [[mtB, mc]], seed, "memB", secret=secB)
+        mnA, mnB = ref.bip39_encode(secA), ref.bip39_encode(secB)
+        both = len(A) + len(B) <= 6
+        for ma in range(1, 1 << len(A)):
+            for mb in range(1, 1 << len(B)):
+                texts = [A[i] for i in range(len(A)) if ma >> i & 1] + [B[i] for i in range(len(B)) if mb >> i & 1]
+                if len(set(texts)) != len(texts) or set(texts) <= set(A) or set(texts) <= set(B):
+                    res.skip("union is a subset of a single split (identical share text in both splits)")
+                    continue
+                for order in (0, 1) if both else (0,):
+                    lst = texts if order == 0 else texts[::-1]
+                    want, why = ref_value(lst, pp)
+                    r = attempt(ShareSet.recover_mnemonic, lst, pp)
+                    if want is None:
+                        if isinstance(r, Rejected):
+                            res.ok(f"member-mix-rejected({'digest' if why == 'digest' else 'header/count'})", nontrivial=(case["cfg"], mt, mc, case["v"], ma, mb, order) if why == "digest" else None)
+                        else:
+                            res.violation(
+                                f"C15/member/mix-accepted/reference-rejects-for-{why.replace(' ', '-')}",
+                                vc,
+                                {"from_A": ma, "from_B": mb, "order": order, "got": repr(r)[:120], "equals_A": r == mnA, "equals_B": r == mnB},
+                                f"rejection (reference: {why})",
+                                "member shares of two different splits were combined into a result",
+                            )
+                    elif r == want or isinstance(r, Rejected):
+                        res.ok("member-mix-consistent(reference accepts)")
+                    else:
+                        res.violation("C15/member/mix-garbage", vc, {"from_A": ma, "from_B": mb, "got": repr(r)[:120]}, want, "mixed member set accepted with a value different from the reference's")
+        return res
+
+    gt, gc, spec = case["gt"], case["gc"], case["spec"]
+    level = "one-group" if gc == 1 else "two-level"
+    secret, pp, ident, texts, meta = build_levels(c, gt, gc, spec, seed, "mem")
+    mn = ref.bip39_encode(secret)
+    m = len(texts)
+    if case["mode"] == "all":
+        subsets = [tuple(i for i in range(m) if mask >> i & 1) for mask in range(1 << m)]
+        if m <= 3:
+            subsets = [p for s in subsets for p in itertools.permutations(s)]
+    else:
+        mt = spec[0][0]
+        seen, subsets = set(), []
+        for size in (mt - 1, mt, mt + 1, m) if case.get("plus") else (mt - 1, mt, m):
+            if not 0 <= size <= m:
+                continue
+            for start in range(m):
+                w = tuple((start + j) % m for j in range(size))  # list order = cyclic order (wrapping windows are not sorted)
+                if tuple(sorted(w)) not in seen:
+                    seen.add(tuple(sorted(w)))
+                    subsets.append(w)
+    for comb in subsets:
+        sub = [texts[i] for i in comb]
+        r = attempt(ShareSet.recover_mnemonic, sub, pp)
+        if not comb:
+            if isinstance(r, Rejected):
+                res.ok("empty-rejected")
+            else:
+                res.violation(f"C15/member/below-threshold-accepted/{level}", vc, {"subset": [], "got": repr(r)[:120]}, "rejection", "an empty share list returned a value")
+            continue
+        sufficient, clean, exact = level_class([meta[i] for i in comb], gt)
+        want, why = ref_value(sub, pp)
+        if (want is not None) != clean or (want is not None and want != mn):
+            raise AssertionError(f"harness: reference outcome {why!r} does not match the structure of subset {comb}")
+        if clean:
+            if r != mn:
+                res.violation(
+                    f"C15/member/not-recovered/{level}/{'exact' if exact else 'surplus'}",
+                    vc,
+                    {"subset": list(comb), "got": repr(r)[:120]},
+                    mn,
+                    "shares reaching every member threshold and the group threshold (reference-built, reference recovers them) do not recover the original mnemonic",
+                )
+            else:
+                res.ok("recovered", nontrivial=(case["cfg"], gt, gc, repr(spec), comb), sample={"gt": gt, "gc": gc, "spec": spec, "subset": list(comb)} if exact and gc == 2 and gt == 2 else None)
+        elif sufficient:
+            # enough complete groups plus an incomplete one: the spec rejects, the statement allows either answer
+            if isinstance(r, Rejected) or r == mn:
+                res.ok("surplus-incomplete-group: rejected" if isinstance(r, Rejected) else "surplus-incomplete-group: recovered")
+            else:
+                res.violation(f"C15/member/wrong-value/{level}", vc, {"subset": list(comb), "got": repr(r)[:120]}, mn + " or rejection", "a share set with an incomplete extra group returned a value that is not the secret")
+        else:
+            if isinstance(r, Rejected):
+                res.ok("below-threshold-rejected", nontrivial=(case["cfg"], gt, gc, repr(spec), comb))
+            else:
+                res.violation(
+                    f"C15/member/below-threshold-accepted/{level}",
+                    vc,
+                    {"subset": list(comb), "got": repr(r)[:120], "is_secret": r == mn},
+                    "rejection",
+                    "fewer member shares than the member threshold (or fewer complete groups than the group threshold) returned a value",
+                )
+    return res
+
+
+# ---------------------------------------------------------------- draws (shape of the randomness consumed)
+def needed_bytes(k, nbytes):
+    return 0 if k == 1 else (nbytes - 4) + (k - 2) * nbytes
+
+
+def gen_draws(tier, seed):
+    cases = []
+    for bits in (128, 256):
+        for k, n in KN:
+            cases.append({"kind": "log", "bits": bits, "k": k, "n": n, "seed": seed})
+            if k >= 2 and (bits == 128 or tier == "thorough" or n <= 6 or (k, n) == (16, 16)):
+                cases.append({"kind": "dep", "bits": bits, "k": k, "n": n, "xors": [1, 0x80] if tier == "quick" else [1, 2, 4, 8, 0x10, 0x20, 0x40, 0x80], "seed": seed})
+    return cases
+
+
+def run_draws(case):
+    import buidl.shamir as sh
+    from buidl.shamir import ShareSet
+
+    res = Res()
+    k, n, bits, seed = case["k"], case["n"], case["bits"], case["seed"]
+    nbytes = bits // 8
+    tag = kclass(k)
+    vc = {"engine": "draws", "case": case}
+    secret = secret_of(bits, "f0", seed)
+    need = needed_bytes(k, nbytes)
+    if case["kind"] == "log":
+        mn = ref.bip39_encode(secret)
+        ids = []
+        for idname in ("fill", "fill2"):
+            st = RecStream(ident_of(idname, seed), "fill", seed)
+            with patched_randbits(st):
+                shares = attempt(ShareSet.generate_shares, mn, k, n, passphrase=b"", exponent=0)
+            err = well_formed(shares, k, n)
+            if err:
+                res.violation(f"C15/draws/generate/{tag}", vc, err, "shares", "generate_shares failed on an in-statement input")
+                return res
+            wide = [b for b in st.log if b > 8]
+            if not wide or wide[0] < 15:
+                res.violation("C15/draws/identifier-width", vc, {"draw_widths": sorted(set(st.log))}, "one draw of at least 15 bits for the identifier", "the share-set identifier is not drawn with 15 bits of randomness")
+            else:
+                res.ok("identifier draw >= 15 bits")
+            got_bits = sum(st.log) - (wide[0] if wide else 0)
+            if got_bits < 8 * need:
+                res.violation(
+                    f"C15/draws/entropy-short/{tag}",
+                    vc,
+                    {"bits_drawn": got_bits, "draws": len(st.log), "widths": sorted(set(st.log))},
+                    {"bits_needed": 8 * need},
+                    "generate_shares draws fewer random bits than the k-2 random shares and the digest randomness contain (k-1 shares would not be independent of the secret)",
+                )
+            else:
+                res.ok("random bits drawn >= 8*((k-2)*len + len-4)", nontrivial=(bits, k, n, idname))
+            ids.append({ref.decode_share(s)["id"] for s in shares})
+        want = [{ident_of("fill", seed)}, {ident_of("fill2", seed)}]
+        if ids != want:
+            res.violation("C15/draws/identifier-not-the-draw", vc, [sorted(i) for i in ids], [sorted(i) for i in want], "the identifier in the share headers is not the 15-bit value drawn from randbits")
+        else:
+            res.ok("header identifier == drawn value")
+        return res
+
+    def split(flip):
+        st = RecStream(0, "fill", seed, "dep", flip)
+        with patched_randbits(st):
+            pts = attempt(ShareSet.split_secret, secret, k, n)
+        if isinstance(pts, Rejected):
+            return pts, st
+        return tuple((x, bytes(y)) for x, y in pts), st
+
+    base, st0 = split(None)
+    if isinstance(base, Rejected):
+        res.violation(f"C15/draws/split-raised/{tag}", vc, base.how, "points", "split_secret raised on an in-statement input")
+        return res
+    D = len(st0.drawn)
+    if sum(st0.log) < 8 * need:
+        res.violation(f"C15/draws/entropy-short/{tag}", vc, {"bits_drawn": sum(st0.log), "draws": D}, {"bits_needed": 8 * need}, "split_secret draws fewer random bits than the k-2 random shares and the digest randomness contain")
+        return res
+    seen = {base: "base"}
+    widths = [b for b in st0.log if b <= 8]
+    n_ok = 0
+    for x in case["xors"]:
+        for j in range(D):
+            if x >> widths[j]:
+                continue  # the library asked for a narrower draw: the mask would be cut off
+            out, _ = split({j: x})
+            if out == base:
+                res.violation(f"C15/draws/draw-ignored/{tag}", vc, {"draw": j, "xor": x, "of": D}, "different shares", "changing one random draw does not change the produced shares (the draw is discarded)")
+                return res
+            if out in seen:
+                res.violation(f"C15/draws/draw-collision/{tag}", vc, {"draw": j, "xor": x, "same_as": seen[out]}, "pairwise different share sets", "two different random streams give the same shares (draws are reused or combined)")
+                return res
+            seen[out] = (j, x)
+            n_ok += 1
+    res.bulk("each single-draw change gives a new share set", n_ok, n_ok)
+    return res
+
+
+# ---------------------------------------------------------------- direct (split_secret / recover_secret)
+def gen_direct(tier, seed):
+    cases = []
+    quick = tier == "quick"
+    for bits in (128, 256):
+        for rs in ("fill", "zero", "ones", "ctr"):
+            for k, n in KN:
+                cases.append({"kind": "split", "bits": bits, "rs": rs, "k": k, "n": n, "seed": seed})
+        for k, n in KN:
+            if k == 1:
+                continue
+            mode = "all" if n <= (8 if quick else 10) else "windows"
+            cases.append({"kind": "subsets", "bits": bits, "k": k, "n": n, "mode": mode, "seed": seed})
+            cases.append({"kind": "tamper", "bits": bits, "k": k, "n": n, "full": n <= (4 if quick else 6), "seed": seed})
+    return cases
+
+
+def run_direct(case):
+    from buidl.shamir import ShareSet
+
+    res = Res()
+    k, n, bits, seed = case["k"], case["n"], case["bits"], case["seed"]
+    nbytes = bits // 8
+    tag = kclass(k)
+    vc = {"engine": "direct", "case": case}
+    secret = secret_of(bits, "f3" if case["kind"] != "split" else "f0", seed)
+    with patched_randbits(Stream(0, case.get("rs", "fill"), seed, "direct")):
+        pts = attempt(ShareSet.split_secret, secret, k, n)
+    ok_shape = isinstance(pts, (list, tuple)) and all(isinstance(p, (list, tuple)) and len(p) == 2 and isinstance(p[0], int) and isinstance(p[1], (bytes, bytearray)) and len(p[1]) == nbytes for p in pts)
+    if not ok_shape:
+        res.violation(f"C15/direct/split-shape/{tag}", vc, repr(pts)[:200], "a list of (index, bytes) points", "split_secret failed or returned malformed points on an in-statement input")
+        return res
+    pts = [(x, bytes(y)) for x, y in pts]
+    if k == 1:
+        # documented deviation (DESIGN 6): one point for any n; the spec gives n equal points. Both are accepted.
+        good = len(pts) in (1, n) and [x for x, _ in pts] == list(range(len(pts))) and all(y == secret for _, y in pts)
+        if not good:
+            res.violation("C15/direct/split-structure/k=1", vc, repr(pts)[:200], "point(s) (i, secret), i = 0..", "a threshold-1 split does not hand out the secret itself")
+        else:
+            res.ok("k=1: points carry the secret")
+            if len(pts) != n:
+                res.notes["k=1 split_secret returning a single point (not asserted)"] = 1
+        res.notes["k=1: recover_secret on a single point raises (threshold-1 handled by ShareSet.recover; not asserted)"] = 1
+        return res
+    if [x for x, _ in pts] != list(range(n)):
+        res.violation(f"C15/direct/split-structure/{tag}", vc, [x for x, _ in pts], list(range(n)), "split_secret does not return the n points with indexes 0..n-1")
+        return res
+    if case["kind"] == "split":
+        # order-free comparison with the spec's SplitSecret: feed the reference the random material the library
+        # ended up using (its k-2 first shares and the random part of its digest share); all n points must match
+        ds = ref.interpolate(ref.DIGEST_X, pts[:k])
+        material = {nbytes: [y for _, y in pts[: k - 2]], nbytes - 4: [ds[4:]]}
+
+        def rnd(m):
+            return material[m].pop(0)
+
+        want = ref.split_points(k, n, secret, rnd)
+        if pts != want:
+            bad = [x for (x, y), (_, w) in zip(pts, want) if y != w]
+            res.violation(f"C15/direct/split-vs-reference/{tag}", vc, {"differing_indexes": bad}, "SplitSecret(k, n, secret) of the specification on the same random material", "split_secret points are not the spec's: wrong digest share, secret not at x=255, or shares off the polynomial")
+        else:
+            res.ok("split_secret == reference SplitSecret", nontrivial=(bits, case["rs"], k, n))
+        for name, sub in (("first-k", pts[:k]), ("last-k", pts[-k:]), ("all", pts)):
+            r = attempt(ShareSet.recover_secret, list(sub))
+            if r != secret:
+                res.violation(f"C15/direct/recover-secret/not-recovered/{tag}/{'size=k' if len(sub) == k else 'size>k'}", vc, {"subset": name, "got": repr(r)[:80]}, secret.hex(), "recover_secret on >= k points of split_secret does not return the secret")
+            else:
+                res.ok("recover_secret(split_secret) == secret")
+        return res
+
+    def ref_points(sub):
+        try:
+            return ref.recover_points(max(2, min(k, len(sub))), sub, exact=False)
+        except ref.Invalid:
+            return None
+
+    if case["kind"] == "subsets":
+        if case["mode"] == "all":
+            subsets = [tuple(i for i in range(n) if mask >> i & 1) for mask in range(1, 1 << n)]
+        else:
+            seen, subsets = set(), []
+            for size in (1, k - 1, k, k + 1, n):
+                if 1 <= size <= n:
+                    for start in range(n):
+                        w = tuple(sorted((start + j) % n for j in range(size)))
+                        if w not in seen:
+                            seen.add(w)
+                            subsets.append(w)
+        n_ok = 0
+        for comb in subsets:
+            sub = [pts[i] for i in comb]
+            r = attempt(ShareSet.recover_secret, list(sub))
+            if len(comb) >= k:
+                if r != secret:
+                    res.violation(f"C15/direct/recover-secret/not-recovered/{tag}/{'size=k' if len(comb) == k else 'size>k'}", vc, {"subset": list(comb), "got": repr(r)[:80]}, secret.hex(), "recover_secret on >= k points of split_secret does not return the secret")
+                else:
+                    n_ok += 1
+            elif isinstance(r, Rejected):
+                n_ok += 1
+            else:
+                # an accidental digest match (2^-32) is the only excuse: decided by the reference on the same points
+                w = ref_points(sub) if len(sub) >= 2 else (sub[0][1] if ref.digest(sub[0][1][4:], sub[0][1]) == sub[0][1][:4] else None)
+                if w is not None and w == r:
+                    res.skip("below-threshold point set with an accidentally valid digest")
+                else:
+                    res.violation(f"C15/direct/recover-secret/below-threshold-accepted/{tag}", vc, {"subset": list(comb), "got": repr(r)[:80], "is_secret": r == secret}, "rejection", "recover_secret on fewer than k points returned a value (digest check missing or ineffective)")
+        res.bulk("recover_secret: >=k recovered, <k rejected", n_ok, n_ok)
+        return res
+    # tamper: one byte of one point changed -> the digest must not verify
+    n_ok = 0
+    for name, idxs in (("first-k", list(range(k))), ("all", list(range(n)))):
+        victims = idxs if case["full"] else sorted({idxs[0], idxs[-1]})
+        positions = range(nbytes) if case["full"] else (0, 3, 4, nbytes - 1)
+        for t in victims:
+            for p in positions:
+                for d in (1, 0x80, 0xFF) if case["full"] else (1,):
+                    sub = [(x, y if x != t else y[:p] + bytes([y[p] ^ d]) + y[p + 1 :]) for x, y in (pts[i] for i in idxs)]
+                    r = attempt(ShareSet.recover_secret, list(sub))
+                    if isinstance(r, Rejected):
+                        n_ok += 1
+                        continue
+                    w = ref_points(sub)
+                    if w is not None and w == r:
+                        res.skip("tampered point set with an accidentally valid digest")
+                    else:
+                        res.violation(f"C15/direct/recover-secret/tampered-accepted/{tag}", vc, {"set": name, "point": t, "byte": p, "xor": d, "got": repr(r)[:80], "is_secret": r == secret}, "rejection", "recover_secret accepts a point set in which one share byte was changed (digest not verified)")
+    res.bulk("tampered point set rejected by the digest", n_ok, n_ok)
+    return res
+
+
+# ---------------------------------------------------------------- repeat (lists with repeated shares)
+def gen_repeat(tier, seed):
+    nmax = 4 if tier == "quick" else 5
+    return [{"level": lv, "k": k, "n": n, "extra": 1 if tier == "quick" else 2, "seed": seed} for lv in ("group", "member") for k, n in KN if n <= nmax]
+
+
+def run_repeat(case):
+    from buidl.shamir import ShareSet
+
+    res = Res()
+    k, n, seed, level = case["k"], case["n"], case["seed"], case["level"]
+    vc = {"engine": "repeat", "case": case}
+    if level == "group":
+        mn, secret, pp, shares = make_split(cfg(), k, n, seed)
+        err = well_formed(shares, k, n)
+        if err:
+            res.violation(f"C15/repeat/generate/{kclass(k)}", vc, err, "shares", "generate_shares failed on an in-statement input")
+            return res
+    else:
+        secret, pp, _, shares, _ = build_levels(MEMBER_CFG["A"], 1, 1, [[k, n]], seed, "rep")
+        mn = ref.bip39_encode(secret)
+    m = len(shares)
+    for size in range(2, min(k + case["extra"], 6) + 1):
+        for tup in itertools.product(range(m), repeat=size):
+            d = len(set(tup))
+            if d == size:
+                continue
+            r = attempt(ShareSet.recover_mnemonic, [shares[i] for i in tup], pp)
+            if isinstance(r, Rejected):
+                res.ok("list with repeats rejected", nontrivial=(level, k, n, tup))
+            elif d < k:
+                res.violation(f"C15/repeat/below-threshold-accepted/{level}", vc, {"list": list(tup), "distinct": d, "got": repr(r)[:120], "is_secret": r == mn}, "rejection", f"a list of {size} entries holding only {d} < k distinct shares returned a value")
+            elif r != mn:
+                res.violation(f"C15/repeat/wrong-value/{level}", vc, {"list": list(tup), "distinct": d, "got": repr(r)[:120]}, mn + " or rejection", "a list with repeated shares returned a value that is not the secret")
+            else:
+                res.ok("list with repeats (>= k distinct) recovered", nontrivial=(level, k, n, tup))
+    return res
+
+
+# ---------------------------------------------------------------- defaults
+def gen_defaults(tier, seed):
+    nmax = 4 if tier == "quick" else 8
+    return [{"bits": b, "k": k, "n": n, "seed": seed} for b in (128, 256) for k, n in KN if n <= nmax or (k, n) == (16, 16)]
+
+
+def run_defaults(case):
+    from buidl.shamir import Share, ShareSet
+
+    res = Res()
+    k, n, bits, seed = case["k"], case["n"], case["bits"], case["seed"]
+    tag = kclass(k)
+    vc = {"engine": "defaults", "case": case}
+    secret = secret_of(bits, "f4", seed)
+    mn = ref.bip39_encode(secret)
+    ident = ident_of("fill", seed)
+    with patched_randbits(Stream(ident, "fill", seed, "defaults")):
+        shares = attempt(ShareSet.generate_shares, mn, k, n)  # no passphrase, no exponent
+    err = well_formed(shares, k, n)
+    if err:
+        res.violation(f"C15/defaults/generate/{tag}", vc, err, "shares", "generate_shares(mnemonic, k, n) with default passphrase/exponent failed")
+        return res
+    for name, sub in (("first-k", shares[:k]), ("last-k", shares[-k:]), ("all", shares)):
+        r = attempt(ShareSet.recover_mnemonic, list(sub))  # no passphrase
+        if r != mn:
+            res.violation(f"C15/defaults/generate-recover/{tag}", vc, {"subset": name, "got": repr(r)[:120]}, mn, "shares generated with the default passphrase/exponent are not recovered by recover_mnemonic with the default passphrase")
+        else:
+            res.ok("defaults: recover_mnemonic(generate_shares) == mnemonic", nontrivial=(bits, k, n, name))
+    r = attempt(lambda: bytes(ShareSet([Share.parse(s) for s in shares]).recover()))
+    if r != secret:
+        res.violation(f"C15/defaults/shareset-recover/{tag}", vc, repr(r)[:120], secret.hex(), "ShareSet.recover() with the default passphrase does not return the secret of a default-passphrase split")
+    else:
+        res.ok("defaults: ShareSet.recover() == secret")
+    payload = secret_of(bits, "f5", seed)
+
+    def crypt_defaults():
+        enc = ShareSet.encrypt(payload, ident, 0)
+        ss = ShareSet([Share(bits, ident, 0, 0, 1, 1, 0, 1, int.from_bytes(enc, "big"))])
+        return bytes(ss.decrypt(enc)), bytes(ShareSet.encrypt(ss.decrypt(payload), ident, 0))
+
+    r = attempt(crypt_defaults)
+    if r != (payload, payload):
+        res.violation("C15/defaults/encrypt-decrypt", vc, repr(r)[:160], payload.hex(), "encrypt and decrypt with their default passphrases are not inverse")
+    else:
+        res.ok("defaults: decrypt(encrypt(x)) == x == encrypt(decrypt(x))")
+    return res
+
+
+# ---------------------------------------------------------------- tokens (words outside the list)
+BIP39_ONLY = "abandon"  # first word of the BIP39 list; not a SLIP39 word
+
+
+def gen_tokens(tier, seed):
+    cases = [{"kind": "aliases", "lo": lo, "hi": lo + 128} for lo in range(0, 1024, 128)]
+    for L in (20, 33):
+        for which in (0, 1, 2):
+            for p in range(L):
+                cases.append({"kind": "pos", "L": L, "base": which, "p": p, "seed": seed})
+    return cases
+
+
+def run_tokens(case):
+    from buidl.shamir import SLIP39, Share
+
+    res = Res()
+    vc = {"engine": "tokens", "case": case}
+    if case["kind"] == "aliases":
+        alias_of = {v[:4] for v in ref.WORDS if len(v) > 4}
+        for i in range(case["lo"], case["hi"]):
+            w = ref.WORDS[i]
+            for tok in {w[:4], w[:5], w[:6], w[:7]} - {w}:
+                r = attempt(SLIP39.__getitem__, tok)
+                if isinstance(r, Rejected) or r is None:
+                    res.ok("prefix not accepted by the word lookup")
+                elif r != i:
+                    res.violation("C15/tokens/alias-wrong-index", vc, {"token": tok, "got": r}, {"word": w, "index": i}, "a prefix of a SLIP39 word is looked up as a different word")
+                else:
+                    res.ok("prefix alias -> index of its word", nontrivial=tok)
+            for tok in (w.upper(), w[:3], w + "s", w[1:]):
+                if tok in ref.WORD_INDEX or tok in alias_of:
+                    continue  # the token is (the 4-letter alias of) another list word
+                r = attempt(SLIP39.__getitem__, tok)
+                if not (isinstance(r, Rejected) or r is None) and r != i:
+                    res.violation("C15/tokens/alias-wrong-index", vc, {"token": tok, "got": r}, {"word": w, "index": i}, "a token that is no SLIP39 word is looked up as a different word")
+                else:
+                    res.ok("variant token: not accepted or its own word")
+        return res
+    L, p = case["L"], case["p"]
+    text, idx = base_share(L, case["base"], case["seed"])
+    words = text.split()
+    w = words[p]
+    honest = attempt(lambda: lib_fields(Share.parse(text)))
+    if isinstance(honest, Rejected):
+        res.violation(f"C15/tokens/honest-rejected/L{L}", vc, repr(honest), "parses", "an uncorrupted share is rejected")
+        return res
+
+    def parse_with(subst):
+        t = list(words)
+        for q, tok in subst.items():
+            t[q] = tok
+        return attempt(lambda: lib_fields(Share.parse(" ".join(t))))
+
+    # spellings of the SAME word: may be accepted, then as the same share
+    for tok in {w[:4], w[:5], w[:3], w.upper(), w.capitalize(), w + "s"} - {w}:
+        if tok in ref.WORD_INDEX:
+            continue
+        r = parse_with({p: tok})
+        if isinstance(r, Rejected):
+            res.ok("same-word spelling rejected")
+        elif r != honest:
+            res.violation(f"C15/tokens/alias-wrong-share/L{L}", vc, {"token": tok, "for": w, "got": r}, honest, "a prefix/spelling of the right word parses to a different share")
+        else:
+            res.ok("same-word spelling accepted as the same share", nontrivial=(L, case["base"], p, tok))
+    # tokens naming no word, or (a spelling of) another word: corruption, must be rejected
+    others = {ref.WORDS[(idx[p] + 1) % 1024], ref.WORDS[idx[p] ^ 512], ref.WORDS[0], ref.WORDS[1023]} - {w}
+    foreign = {"zzzz": "nonword", BIP39_ONLY: "nonword", "0": "nonword", str(idx[p]): "nonword", "-": "nonword", w[::-1] + "q": "nonword"}
+    for o in others:
+        foreign[o[:4]] = "other-word"
+        foreign[o.upper()] = "other-word"
+        foreign[o] = "other-word"
+    for tok, cls in sorted(foreign.items()):
+        if tok == w:
+            continue
+        r = parse_with({p: tok})
+        if isinstance(r, Rejected):
+            res.ok("foreign token rejected", nontrivial=(L, case["base"], p, tok))
+        else:
+            res.violation(f"C15/tokens/foreign-accepted/{cls}/L{L}", vc, {"position": p, "token": tok, "for": w, "same_share": r == honest}, "rejection", "a share in which one word is replaced by a token that is not (a spelling of) that word parses")
+    for tok in ("zzzz", BIP39_ONLY):
+        for q in (((p + 7) % L,), ((p + 7) % L, (p + 13) % L)):
+            r = parse_with({x: tok for x in (p,) + q})
+            if isinstance(r, Rejected):
+                res.ok("2-3 non-word tokens rejected")
+            else:
+                res.violation(f"C15/tokens/foreign-accepted/nonword/L{L}", vc, {"positions": [p] + list(q), "token": tok}, "rejection", "a share with 2-3 words replaced by non-words parses")
+    return res
+
+
+# ---------------------------------------------------------------- order (list order, mid sizes)
+def gen_order(tier, seed):
+    cases = []
+    for name, c in (("128", cfg()), ("256", cfg(**CFG_256))):
+        if name == "256" and tier == "quick":
+            continue
+        for k, n in KN:
+            if n >= 5:
+                cases.append({"cfg": c, "k": k, "n": n, "starts": "some" if tier == "quick" else "all", "seed": seed})
+    return cases
+
+
+def run_order(case):
+    from buidl.shamir import ShareSet
+
+    res = Res()
+    c, k, n, seed = case["cfg"], case["k"], case["n"], case["seed"]
+    vc = {"engine": "order", "case": case}
+    tag = kclass(k)
+    mn, secret, pp, shares = make_split(c, k, n, seed)
+    err = well_formed(shares, k, n)
+    if err:
+        res.violation(f"C15/order/generate/{tag}", vc, err, "shares", "generate_shares failed on an in-statement input")
+        return res
+    m = len(shares)
+    lists = []
+    starts = range(m) if case["starts"] == "all" else sorted({0, m // 2, m - 1})
+    for size in (k - 1, k, k + 1):
+        if not 1 <= size <= m:
+            continue
+        for start in starts:
+            w = [(start + j) % m for j in range(size)]
+            if w != sorted(w):
+                lists.append(tuple(w))  # wrapping window in cyclic (unsorted) order
+            if size > 1:
+                lists.append(tuple(reversed(w)))
+    full = list(range(m))
+    lists.append(tuple(full[1::2] + full[0::2]))  # odd positions first
+    lists.append(tuple(x for pair in zip(full[: m // 2], reversed(full)) for x in pair))  # outside-in interleaving (may be partial)
+    if m >= 13:  # sizes strictly between k+1 and n: one strided subset per size, in stride order
+        stride = next(s for s in (5, 7, 3, 11) if m % s)
+        for size in range(k + 2, m):
+            lists.append(tuple((i * stride) % m for i in range(size)))
+    for lst in dict.fromkeys(lists):
+        d = len(set(lst))
+        r = attempt(ShareSet.recover_mnemonic, [shares[i] for i in lst], pp)
+        if d >= k:
+            if r != mn:
+                res.violation(f"C15/order/not-recovered/{tag}/{'size=k' if d == k else 'size>k'}", vc, {"list": list(lst), "got": repr(r)[:120]}, mn, f"{d} >= k distinct shares given in a non-ascending order do not recover the original mnemonic")
+            else:
+                res.ok("recovered (unsorted list)", nontrivial=(c["bits"], k, n, lst))
+        elif isinstance(r, Rejected):
+            res.ok("below-threshold-rejected (unsorted list)", nontrivial=(c["bits"], k, n, lst))
+        else:
+            res.violation(f"C15/order/below-threshold-accepted/{tag}", vc, {"list": list(lst), "got": repr(r)[:120]}, "rejection", f"{d} < k shares in a non-ascending order returned a value")
+    return res
+
+
+# ---------------------------------------------------------------- foreign (one foreign share among valid ones)
+def gen_foreign(tier, seed):
+    cases = []
+    quick = tier == "quick"
+    for k, n in KN:
+        if k >= 2:
+            cases.append({"kind": "replace", "k": k, "n": n, "seed": seed})
+        if n <= (5 if quick else 7):
+            cases.append({"kind": "rewritten", "k": k, "n": n, "seed": seed})
+        if k >= 2 and n <= (4 if quick else 5):
+            cases.append({"kind": "three", "k": k, "n": n, "seed": seed})
+    return cases
+
+
+def run_foreign(case):
+    from buidl.shamir import ShareSet
+
+    res = Res()
+    k, n, seed = case["k"], case["n"], case["seed"]
+    vc = {"engine": "foreign", "case": case}
+    a = cfg()
+    splits = []
+    for label, c in (("rsA", a), ("rsB", variant_cfg(a, "secret+rand")), ("rsC", dict(a, sv="f8", rs="ctr"))):
+        mn, secret, pp, sh = make_split(c, k, n, seed, label)
+        err = well_formed(sh, k, n)
+        if err:
+            res.violation(f"C15/foreign/generate/{kclass(k)}", vc, err, "shares", "generate_shares failed on an in-statement input")
+            return res
+        splits.append((mn, sh))
+        if case["kind"] != "three" and len(splits) == 2:
+            break
+    (mnA, A), (mnB, B) = splits[0], splits[1]
+    ppA = pass_of(a["pp"], seed)
+    memo = {}
+
+    def judge(lst, what, key):
+        decs = [ref.decode_share(t) for t in lst]
+        try:
+            ems = ref.recover_ems(decs, False)
+            if ems not in memo:
+                memo[ems] = ref.bip39_encode(ref.decrypt(ems, ppA, decs[0]["exp"], decs[0]["id"]))
+            want, why = memo[ems], "accepted"
+        except ref.Invalid as e:
+            want, why = None, str(e)
+        r = attempt(ShareSet.recover_mnemonic, lst, ppA)
+        if want is None:
+            if isinstance(r, Rejected):
+                res.ok(f"foreign share rejected ({'digest' if why == 'digest' else 'header/count'})", nontrivial=(case["kind"], k, n, key) if why == "digest" else None)
+            else:
+                res.violation(f"C15/foreign/accepted/{what}/reference-rejects-for-{why.replace(' ', '-')}", vc, {"list": key, "got": repr(r)[:120], "equals_A": r == mnA, "equals_B": r == mnB}, f"rejection (reference: {why})", "a share set containing a share of another split was combined into a result")
+        elif r == want or isinstance(r, Rejected):
+            res.ok("foreign share: consistent with the reference (which accepts)")
+        else:
+            res.violation(f"C15/foreign/garbage/{what}", vc, {"list": key, "got": repr(r)[:120]}, want, "a share set containing a foreign share is accepted with a value different from the reference's")
+
+    if case["kind"] == "replace":
+        for name, idxs in (("all", list(range(n))), ("first-k", list(range(k)))):
+            for j in idxs:
+                if A[j] == B[j]:
+                    res.skip("identical share text in both splits")
+                    continue
+                judge([B[i] if i == j else A[i] for i in idxs], "replaced", [name, j])
+        return res
+    if case["kind"] == "three":
+        C = splits[2][1]
+        src = (A, B, C)
+        for width in sorted({k, n}):
+            for pick in itertools.product(range(3), repeat=width):
+                lst = [src[s][i] for i, s in enumerate(pick)]
+                if any(set(lst) <= set(s) for s in src):
+                    res.skip("list is a subset of a single split")
+                    continue
+                judge(lst, "three-splits", list(pick))
+        return res
+    # rewritten: a share of B re-encoded with another member index (and member threshold) so that it passes the
+    # index-uniqueness check, put after / before the complete set A
+    dB = [ref.decode_share(s) for s in B]
+    for j in range(len(B)):
+        for mi, mt in ((1, 1), (1, 2), (15, 1)):
+            t = ref.encode_share(dict(dB[j], mi=mi, mt=mt))
+            for order in (0, 1):
+                lst = list(A) + [t] if order == 0 else [t] + list(A)
+                judge(lst, "rewritten", [j, mi, mt, order])
+    return res
+
+
 # ---------------------------------------------------------------- registry
 def engines(tier, seed):
     return [
@@ -1156,7 +1950,9 @@ def engines(tier, seed):
             rule="generate_shares -> recover_mnemonic end to end. Quick: 14 configurations x all (k,n), n<=6 x every subset (every ordered arrangement for n<=4) incl. the "
             "empty one; 2 configurations (128/256 bit) x n in 7..8 x every subset, and n in 9..16 x every cyclic window of size k-1,k,k+1 plus the full set. Thorough: "
             "14 configurations x n<=8 x every subset; 2 configurations x n in 9..12 x every subset, n in 13..16 x every subset of size 0,1,k-1,k,k+1,n (128 bit) / k-1,k,n (256 bit). >= k shares must "
-            "return exactly the original mnemonic, < k must be rejected, a different passphrase must not return it. Non-trivial = every (configuration,k,n,subset)",
+            "return exactly the original mnemonic, < k must be rejected, a different passphrase must not return it. Plus 7 edge configurations x n<=4 (thorough <=6) x every subset: "
+            "secrets chosen so that the split payload (encrypted secret) has two leading / two trailing / only zero bytes (128 and 256 bit), and passphrase x exponent "
+            "(binary, e=2), (100 bytes, e=1). Non-trivial = every (configuration,k,n,subset)",
         ),
         Engine(
             "mixed",
@@ -1198,5 +1994,78 @@ def engines(tier, seed):
             "(2-word errors), xor of any two at different positions is not a single-error syndrome (3-word errors; 1023^2 set probes per position pair); the table is "
             "recomputed from two other words and double-error syndromes compared with xors (affinity). A collision is turned into a concrete mnemonic and confirmed on "
             "rs1024_verify_checksum. Non-trivial = every probe",
+        ),
+        Engine(
+            "member",
+            gen_member,
+            run_member,
+            rule="shares built by the REFERENCE splitter/encoder (never by generate_shares) through recover_mnemonic. One group (1-of-1) with member threshold mt of mc: "
+            "quick 128 bit all (mt,mc) with mc<=5 x every subset (every ordering for <=3 shares), mc 6..16 x every cyclic window of size mt-1, mt and the full set in cyclic "
+            "(unsorted) order, 256 bit mc<=4 x every subset + 3 large pairs; thorough mc<=8 every subset, windows also of size mt+1, a third configuration (binary passphrase, e=2). "
+            "Two levels: every (gt,gc) with gc in 2..3 x every assignment of member splits {1of1,2of2,2of3,(3of3 for gc=2 / thorough)} to the groups with <=7 (thorough 9) shares x "
+            "every subset. Oracle by structure, cross-checked with the reference recovery: every present group complete and >= gt groups -> exactly the mnemonic; no gt complete "
+            "groups -> rejected; complete groups plus an incomplete one -> mnemonic or rejection. Mixes: two one-group splits (same identifier; different randomness / secret / "
+            "member threshold), mc<=3 (thorough 4), every union of a non-empty part of each: value only if the reference accepts. Non-trivial = every (configuration, split, subset)",
+        ),
+        Engine(
+            "draws",
+            gen_draws,
+            run_draws,
+            rule="the randbits seam records every draw. All 136 (k,n) x 128/256 bit through generate_shares: a first wide draw of >= 15 bits whose value is the header identifier "
+            "(two identifiers), and at least 8*((k-2)*len + len-4) further random bits. Through split_secret, every (k>=2,n) at 128 bit (256 bit: n<=6 and 16-of-16; thorough all): "
+            "each single byte draw xored with 1 and with 0x80 (thorough: with every single bit) in turn - the produced point list must change and all lists must be pairwise different (no draw discarded, "
+            "reused or narrowed). Non-trivial = every perturbed draw",
+        ),
+        Engine(
+            "direct",
+            gen_direct,
+            run_direct,
+            rule="ShareSet.split_secret / recover_secret called directly (no cipher): all 136 (k,n) x 128/256 bit x streams {filler, zero, ones, counter}: indexes 0..n-1, all n points equal "
+            "to the reference SplitSecret fed with the random material the library used (order-free), recover_secret(first k / last k / all) == secret; k=1: the point(s) carry the "
+            "secret (1 point instead of n is the documented deviation, recover_secret on it is not asserted). recover_secret on every non-empty subset for n<=8 (thorough 10), "
+            "cyclic windows of size 1,k-1,k,k+1,n above: >= k -> secret, < k -> rejected (unless the reference finds the digest accidentally valid). Tamper: one byte of one "
+            "point xored (n<=4, thorough 6: every point, byte, xor in {1,0x80,0xff}; larger n: first/last point, bytes 0,3,4,last) in the first-k and the full set -> rejected. "
+            "Non-trivial = every call",
+        ),
+        Engine(
+            "repeat",
+            gen_repeat,
+            run_repeat,
+            rule="lists with repeated entries: (k,n) with n<=4 (thorough 5), shares from generate_shares (group level) and reference-built one-group member shares; every tuple with "
+            "at least one repetition of length 2..min(k+1,6) (thorough k+2) through recover_mnemonic: fewer than k DISTINCT shares -> rejected; otherwise rejection or exactly the "
+            "mnemonic. Non-trivial = every list",
+        ),
+        Engine(
+            "defaults",
+            gen_defaults,
+            run_defaults,
+            rule="default arguments: generate_shares(mnemonic,k,n) -> recover_mnemonic(shares) without passphrase/exponent for (k,n) with n<=4 (thorough 8) and 16-of-16, 128/256 bit, "
+            "first k / last k / all shares; ShareSet(...).recover() == secret; encrypt/decrypt with default passphrase inverse to each other. Non-trivial = every case",
+        ),
+        Engine(
+            "tokens",
+            gen_tokens,
+            run_tokens,
+            rule="tokens outside the 1024 words. 3 base shares x 20/33 words x every position: spellings of the same word (4/5/3-letter prefix, upper case, capitalised, +s) may parse "
+            "only to the identical share; tokens naming nothing (zzzz, a BIP39-only word, digits, '-', reversed word) or another word (4 other words: full, upper case, 4-letter "
+            "prefix) must be rejected, also 2 and 3 non-words at once. Word lookup: every prefix of length 4..7 and upper/3-letter/+s/first-letter-dropped variant of every list "
+            "word (unless it is another word or its 4-letter alias) is rejected or maps to that word's index. Non-trivial = every accepted alias / rejected token",
+        ),
+        Engine(
+            "order",
+            gen_order,
+            run_order,
+            rule="list order and middle sizes, generate_shares -> recover_mnemonic, every (k,n) with n>=5 (128 bit; thorough also 256): cyclic windows of size k-1,k,k+1 starting "
+            "at 0, n/2, n-1 (thorough: every start) in wrapping (unsorted) and in reversed order, the full set odd-positions-first and outside-in; n>=13: one strided subset for "
+            "every size k+2..n-1 in stride order. >= k -> mnemonic, < k -> rejected. Non-trivial = every list",
+        ),
+        Engine(
+            "foreign",
+            gen_foreign,
+            run_foreign,
+            rule="valid share sets with foreign shares (same identifier, other secret and randomness): all (k>=2,n): share j of the full set / of the first k replaced by the other "
+            "split's share j, every j; n<=4 (thorough 5): every assignment of each index to one of three splits; n<=5 (thorough 7): a foreign share re-encoded by the reference with "
+            "member index 1 or 15 / member threshold 2 (passes the index-uniqueness check) appended or prepended to the complete set. The library may return a value only if "
+            "the reference recovery (at-least-threshold rule) accepts the same list, then the same value. Non-trivial = list rejected only by the digest",
         ),
     ]
